@@ -43,8 +43,7 @@ NPROC = int(os.environ.get("VERIF_JOBS", "16"))
 
 def prelude_canon_source():
     """the canonical printer of the prelude, for stand-alone replay files"""
-    src = open(os.path.join(_core.DRV, "prelude.janet")).read()
-    return src[:src.index("(defn err-text")]
+    return open(os.path.join(HERE, "canon2.janet")).read()
 
 
 def run_items(driver, items, timeout=300):
@@ -348,6 +347,10 @@ def leafsig(d):
 # ------------------------------------------------------------------ part: graphs
 
 GRAPH_LEAVES = [("int", 7), ("lit", "s")]
+_R = ("kwlit", "R")
+REPL = {"A": ("arr", _R), "T": ("tab", _R, ("int", 1)), "U": ("buf", 1, 82), "S": ("struct", _R, ("int", 1)),
+        "P": ("tup", _R), "B": ("btup", _R)}
+REPL_SRC = {"A": "@[:R]", "T": "@{:R 1}", "U": '@"R"', "S": "{:R 1}", "P": "(tuple :R)", "B": "(tuple/brackets :R)"}
 
 
 def imm_key(nodes, d, memo):
@@ -434,7 +437,8 @@ def graph_shard(arg):
         memo = {}
         for k in range(nn):
             key = imm_key(g, ("n", k), memo)
-            repl = {j: ("kwlit", "R") for j in range(nn) if imm_key(g, ("n", j), memo) == key}
+            rd = REPL[g[k][0][0]]
+            repl = {j: rd for j in range(nn) if imm_key(g, ("n", j), memo) == key}
             try:
                 expk = M.Canon(g, repl).text(root)
             except M.Ambiguous:
@@ -443,8 +447,8 @@ def graph_shard(arg):
             out["outcomes"].add("g:reg:" + ("ok" if got == expk else "diff"))
             if got != expk:
                 out["viols"].append(Viol("graph:registry:%s:node-%s" % (kinds_sig(g), g[k][0]),
-                                         "node %d registered as 'r, looked up as :R: %s -> %s, expected %s" % (k, exp, got, expk),
-                                         replay_value(build, "n0", "(unmarshal (marshal x @{n%d 'r}) @{'r :R})" % k, expk, got)))
+                                         "node %d registered as 'r, looked up as a fresh value: %s -> %s, expected %s" % (k, exp, got, expk),
+                                         replay_value(build, "n0", "(unmarshal (marshal x @{n%d 'r}) @{'r %s})" % (k, REPL_SRC[g[k][0][0]]), expk, got)))
         if f[5 + nn] != "=":
             out["viols"].append(Viol("graph:original-mutated:%s" % kinds_sig(g), "marshal changed the original: %s -> %s" % (exp, f[5 + nn]),
                                      replay_value(build + ["(marshal n0)"], "n0", "x", exp, f[5 + nn])))
